@@ -21,6 +21,7 @@ META = {
              "public stress() API. Non-trivial: Charnock - finite U whose z0 differs > 1 % from the Wu first guess; "
              "Janssen - exactly one sign change and a finite returned roughness. Distinct = sha1 of the case."),
     "assumptions": [
+        "in half of the cases the source-term / balance objects have been used before on a spectrum with another grid of the same shape (object reuse); every clause must hold regardless",
         "Charnock residual |z0 - (alpha u*^2/g + c nu/u*)| <= 2e-4*z0 + 2e-8 m (the solver stops on 1e-4 relative to max(|z0|,1e-4), i.e. 1e-8 m absolute for small z0)",
         "drag coefficient compared with (kappa/ln(10/z0))^2 at 1e-12 relative using the returned z0",
         "monotonicity in U asserted for wind speeds at least 1 % apart, viscous term off",
@@ -118,7 +119,8 @@ def janssen_case(draw):
     c.update({"input_type": draw(st.sampled_from(["u10", "u10", "friction_velocity"])),
               "gen_params": {k: draw(fl(0.5, 1.5)) for k in GEN_DEFAULTS} if draw(st.integers(0, 2)) == 0 else {},
               "viscous": draw(st.sampled_from([0.0, 0.0, 0.1])),
-              "aligned": draw(st.booleans())})
+              "aligned": draw(st.booleans()),
+              "reuse_terms": draw(st.booleans())})
     return c
 
 
@@ -133,6 +135,8 @@ def run_janssen(c):
         gp[k] = gp[k] * m
     gp["viscous_stress_parameter"] = c["viscous"]
     gen._parameters = gp
+    if c.get("reuse_terms"):
+        W.prime_terms(c, gen)
     kappa, rho, elev = gp["vonkarman_constant"], gp["air_density"], gp["elevation"]
     E = W.densities(c)
     n = E.shape[0]
@@ -144,6 +148,8 @@ def run_janssen(c):
     z = np.asarray(gen.roughness(speed, wdir, spec, wind_speed_input_type=it).values, dtype=float)
     require(z.shape == (n,), "output_shape", f"{z.shape}")
     classes = ["input_" + it]
+    if c.get("reuse_terms"):
+        classes.append("term_object_used_before_on_another_grid_of_the_same_shape")
     nontriv = False
     single = 0
     ells = np.linspace(-20.0, 0.0, NSCAN + 2)[1:-1]
